@@ -145,6 +145,8 @@ def classify(op, ops, where):
         ins.update(cl="mov", a=o[0], b=o[1], w=KMOV[op])
     elif op in ("VZEROUPPER", "VZEROALL"):
         ins["cl"] = "nop"
+    elif op.startswith("PREFETCH") and len(o) == 1 and o[0]["k"] == "m":
+        ins.update(cl="prefetch", a=o[0], w=1)      # touches the cache line of its address, never faults
     elif (op in VEC_OK or op in VEC_MORE
           or (op[0] in "VPK" and len(o) >= 2 and not op.startswith(FLAG_SETTERS) and not op.startswith(NOT_VECTOR)
               and not op.startswith("J") and all(x["k"] in ("v", "kr", "i", "r", "rb") for x in o))):
